@@ -360,6 +360,7 @@ func checkC17(c *Check) {
 	noTransitionalIDNA(c, "R10", nil)
 	c17LowerASCIITotal(c, "R11")
 	c17WholeCharacterCopied(c, "R12")
+	c17AddressFunctionsStateless(c, "R13")
 }
 
 // R8: unquoting is a two-state scanner: a backslash (inside quotes, itself not escaped) escapes exactly the next
